@@ -18,7 +18,7 @@
 #include "proto/dns.h"
 #include "proto/radius.h"
 
-#define MAXTOK 64
+#define MAXTOK 320
 static int split(char *s, char sep, char **tok, int max) {
 	int n = 0;
 	if (!*s) return 0;
